@@ -151,6 +151,25 @@ def corpus(rng, quick):
         "Z": {"Type": "Pass", "End": True}}}, dict(big, none=[])))
     out.append(S("nonext-pass", {"StartAt": "A", "States": {"A": {"Type": "Pass"}}}, {"x": 1}))
     out.append(S("nonext-wait", {"StartAt": "W", "States": {"W": {"Type": "Wait", "Seconds": 1}}}, {"x": 1}))
+    # definitions the engine cannot interpret at one site (C18's subject; here only the lifecycle / ledger / history laws are
+    # evaluated, the reference semantics is not asked): the empty string as a branch's StartAt or as a transition target —
+    # an event whose state name is empty is what the engine takes for the start of a new execution
+    PASS_END = {"Type": "Pass", "End": True}
+    ill = {
+        "branch-startat-empty": {"StartAt": "P", "States": {"P": {"Type": "Parallel", "End": True, "Branches": [
+            {"StartAt": "A", "States": {"A": T("f1")}}, {"StartAt": "", "States": {"B": PASS_END}}]}}},
+        "branch-startat-empty-named": {"StartAt": "P", "States": {"P": {"Type": "Parallel", "End": True, "Branches": [
+            {"StartAt": "", "States": {"": PASS_END}}, {"StartAt": "A", "States": {"A": T("f1")}}]}}},
+        "iterator-startat-empty": {"StartAt": "M", "States": {"M": {"Type": "Map", "ItemsPath": "$.items", "End": True,
+            "Iterator": {"StartAt": "", "States": {"": PASS_END}}}}},
+        "next-empty": {"StartAt": "A", "States": {"A": {"Type": "Pass", "Next": ""}, "": PASS_END}},
+        "catch-next-empty": {"StartAt": "T", "States": {"T": T("f1", Catch=[{"ErrorEquals": ["States.ALL"], "Next": ""}])}},
+        "branch-next-empty": {"StartAt": "P", "States": {"P": {"Type": "Parallel", "End": True, "Branches": [
+            {"StartAt": "A", "States": {"A": {"Type": "Pass", "Next": ""}}}, {"StartAt": "B", "States": {"B": T("f1")}}]}}},
+    }
+    for k, mach in ill.items():
+        out.append(S("illformed-" + k, mach, {"x": 1, "items": [1, 2]}, {"f1": [("err", "Boom", "m")] if "catch" in k else [("ok",)]}, {"f1": 20},
+                     extra={"illformed": True}))
     out.append(S("oversize-branch-task", {"StartAt": "P", "States": {"P": {"Type": "Parallel", "End": True, "Branches": [
         {"StartAt": "T", "States": {"T": T("f1", Next="Z", ResultPath="$.dup"), "Z": {"Type": "Pass", "End": True}}},
         {"StartAt": "B", "States": {"B": T("f2")}}]}}}, big, {"f1": [("ok",)], "f2": [("ok",)]}, {"f1": 10, "f2": 30}))
@@ -556,7 +575,8 @@ def run_property(chk, prop, laws, quick_gen=300, thorough_gen=4000, scns=None, n
             # C09.history_matches_reference: where the reference semantics speaks about the run — a STANDARD execution of a
             # machine without TimeoutSeconds, not under a stalled broker, workers driven by a plan (an oracle exists), ended
             speaks = (pl is not None and kind != "stall" and "TimeoutSeconds" not in scn.machine
-                      and not scn.extra.get("machines") and fv.get("status") in ("SUCCEEDED", "FAILED") and not s.errors)
+                      and not scn.extra.get("machines") and not scn.extra.get("illformed")
+                      and fv.get("status") in ("SUCCEEDED", "FAILED") and not s.errors)
             want_hist = "C09" in laws and speaks and scn.sm_type == "STANDARD"
             # C11.notifications_match_reference: the same runs (EXPRESS ones too: they are notified like any other)
             want_notes = "C11" in laws and speaks
